@@ -32,7 +32,12 @@ def run(rng, tier, res=None):
         sep = rng.choice([0.0, 0.5, 1.5, 4.0])
         Y = np.array([i % K for i in range(n)], dtype=int)
         rng.shuffle(Y)
-        X = np.array([[rng.gauss(sep * Y[i], 1.0) for _ in range(d)] for i in range(n)])
+        if rng.random() < 0.4:
+            # integer grid: exact ties among arc weights (training error can be non-zero there)
+            X = np.array([[float(rng.randint(0, 3)) for _ in range(max(2, d))] for i in range(n)])
+            d = X.shape[1]
+        else:
+            X = np.array([[rng.gauss(sep * Y[i], 1.0) for _ in range(d)] for i in range(n)])
         Xt, Yt, Xv, Yv = X[:nt].copy(), Y[:nt].copy(), X[nt:].copy(), Y[nt:].copy()
         if len(set(Yt.tolist())) < 2:
             Yt[0], Yt[1] = 0, 1
@@ -94,7 +99,10 @@ def run(rng, tier, res=None):
         viol(msgs, meta)
         res.hit("learn_iterations_%d" % len(log)); res.hit("learn_best_not_last" if best != len(log) - 1 else "learn_best_last")
         # ---- model lines: the exchange loop of every iteration, and the keep-the-best rule ----
-        for t, e in enumerate(log):
+        unique_rows = len(ident) == n     # identical (row, label) pairs cannot be told apart: no exchange trace for them
+        if not unique_rows:
+            res.hit("swap_trace_skipped_duplicate_rows")
+        for t, e in enumerate(log if unique_rows else []):
             start = e["arr"]
             end = log[t + 1]["arr"] if t + 1 < len(log) else final_arr
             dr = draws[e["draws_at"]:(log[t + 1]["draws_at"] if t + 1 < len(log) else len(draws))]
@@ -151,6 +159,9 @@ def run(rng, tier, res=None):
             got_rows = [(r.tobytes(), int(l)) for r, l in zip(fits[k + 1][0], fits[k + 1][1])]
             if want_rows != got_rows:
                 msgs.append(f"prune iteration {k + 1} did not retain exactly the relevant samples")
+            if len({(fits[k][0][j].tobytes(), int(fits[k][1][j])) for j in range(len(relv))}) != len(relv):
+                res.hit("prune_trace_skipped_duplicate_rows")
+                continue
             line = f"prune {len(relv)} {ints(relv)}"
             idx_of = {}
             for j in range(len(relv)):
